@@ -205,6 +205,15 @@ type TagMix struct {
 	OS8 int8   `parquet:"os8,optional,int(64)"`
 }
 
+// OptElems: list elements and map values made optional by their own tags
+// (non-pointer element types: a zero element stands for null).
+type OptElems struct {
+	ID int64            `parquet:"id"`
+	L  []int32          `parquet:"l,list" parquet-element:",optional"`
+	LS []string         `parquet:"ls,list" parquet-element:",optional"`
+	M  map[int32]string `parquet:"m" parquet-value:",optional"`
+}
+
 // NestedMaps: maps whose values are maps (the reader rebuilds them through a
 // scratch key/value pair reused from one entry to the next).
 type NestedMaps struct {
@@ -771,4 +780,5 @@ func init() {
 	register[NestedMaps]("NestedMaps")
 	register[NestedTimes]("NestedTimes")
 	register[TagMix]("TagMix")
+	register[OptElems]("OptElems")
 }
